@@ -59,13 +59,17 @@ theorem readcd_exact (cfg : Cfg) (w : World) (st : State) (ro : RO)
   have hS' : (st.cdSectorSize == 0) = false := by simpa using hS
   simp only [step, hro, hS', Bool.false_eq_true, if_false, prefix_is_24, hgo, List.nil_append]
 
-/-- for a plain file every offset a 32-bit (start, count) pair can produce is seekable -/
-theorem plain_seekable (ino start count j S : Nat) (hs : start < 2 ^ 32) (hc : count < 2 ^ 32) (hj : j < count)
+/-- for a plain file every sector number below 2^32 is seekable (the offset stays below what
+    lseek accepts on the served filesystem, `osSeekMax`) -/
+theorem plain_seekable (ino start j S : Nat) (hsum : start + j < 2 ^ 32)
     (hS : S ≤ 2448) : roSeekOk (.plain ino) (24 + start * S + j * S) = true := by
-  have h1 : start * S ≤ 2 ^ 32 * 2448 := Nat.mul_le_mul (by omega) hS
-  have h2 : j * S ≤ 2 ^ 32 * 2448 := Nat.mul_le_mul (by omega) hS
-  simp [roSeekOk]
-  omega
+  have h1 : (start + j) * S ≤ 2 ^ 32 * 2448 := Nat.mul_le_mul (by omega) hS
+  rw [Nat.add_mul] at h1
+  have h2 : (2 : Nat) ^ 32 * 2448 = 10514079940608 := by decide
+  rw [h2] at h1
+  simp only [roSeekOk, osSeekMax]
+  rw [if_neg (by omega)]
+  exact decide_eq_true (by omega)
 
 /-- When every requested sector lies inside the image the answer is the plain concatenation of the
     2048-byte user-data slices and the connection stays open. -/
